@@ -24,8 +24,8 @@ from .dc_validators import (
 
 def check_extensions(inst: "MdParserConfig", field: dc.Field, value: Any) -> None:
     """Check that the extensions are a list of known strings"""
-    if not isinstance(value, Iterable):
-        raise TypeError(f"'{field.name}' not iterable: {value}")
+    if not isinstance(value, list | tuple | set):
+        raise TypeError(f"'{field.name}' not a list, tuple or set: {value}")
     diff = set(value).difference(
         [
             "amsmath",
